@@ -150,3 +150,28 @@ pub fn large_window_case(i: u64) -> Case {
         ..Case::default()
     }
 }
+
+/// Several writes far above the sizes the random workloads use (around 64 KiB, around 1 MiB, 3 MiB), plain or vectored, into a
+/// small window while the reader starts late (parked until the system is quiescent, i.e. until the writer has used up the
+/// window): one write is one frame and one unit of credit whatever its size.
+pub const LARGE_WRITE_LAG_CASES: u64 = 6 * 2 * 2;
+pub fn large_write_lag_case(i: u64) -> Case {
+    const SIZES: [u32; 6] = [65_537, (1 << 20) - 3, (1 << 20) + 17, (2 << 20) + 1, (3 << 20) + 17, 70_000];
+    let s = SIZES[(i % 6) as usize];
+    let vectored = (i / 6) % 2 == 1;
+    let side = (i / 12) as usize;
+    let big = |n: u32| if vectored { WOp::WriteV(vec![n / 3, n - n / 3]) } else { WOp::Write(n) };
+    let mut w = vec![WOp::Write(5)];
+    for _ in 0..6 {
+        w.push(big(s));
+    }
+    w.push(WOp::Write(9));
+    w.push(WOp::Shutdown);
+    Case {
+        opts: [OptsSpec { rwnd: 4, thr: 2, ..OptsSpec::default() }, OptsSpec { rwnd: 4, thr: 2, ..OptsSpec::default() }],
+        streams: vec![StreamSpec { side, port: 80, pad: vec![], delay: 0, park: None, ends: [EndScript { w, r: vec![ROp::ToEof(4096)] }, EndScript { w: vec![WOp::Write(1), WOp::Shutdown], r: vec![ROp::Park(1), ROp::ToEof(1 << 20)] }] }],
+        events: vec![RawEvent { when: Trigger::Quiescent, what: What::Wake(1) }],
+        step_bound: 2_000_000,
+        ..Case::default()
+    }
+}
